@@ -427,11 +427,35 @@ def run_case(case: dict) -> dict:
                     con.close()
         kw["hooks"] = bool(case["hooks"])
         # the scripts are configured in every run; `hooks` alone decides whether they are executed
+        # how the hook command is spelled / how it fails varies with the case (deterministically): a plain `sh script`, an executable
+        # script without `#!` line invoked by path (the shell runs it itself), shell syntax in the configured string; a hook that
+        # exits non-zero, one whose last command does not exist (status 127), one whose last command is not executable (126)
+        import zlib
+        style = case.get("hookstyle")
+        if style is None:
+            style = zlib.crc32(repr(sorted((k, repr(x)) for k, x in case.items())).encode()) % 3
         for v in ("pre", "post"):
             sp = root / f"{v}.sh"
+            failing = case[v] != "ok"
             sp.write_text(HOOK.format(root=root, lock=root / "lockfile", trace=Env.trace, variant=v,
-                                      rc=0 if case[v] == "ok" else 3))
-            kw[f"{v}_hook"] = f"sh {sp}"
+                                      rc=3 if failing and style == 0 else 0))
+            if not failing:
+                if style == 1:
+                    sp.chmod(0o755)
+                    kw[f"{v}_hook"] = str(sp)
+                elif style == 2:
+                    kw[f"{v}_hook"] = f"true && sh {sp}"
+                else:
+                    kw[f"{v}_hook"] = f"sh {sp}"
+            elif style == 1:
+                kw[f"{v}_hook"] = f"sh {sp}; {root}/no-such-hook-{v}"
+            elif style == 2:
+                ne = root / f"{v}-noexec.sh"
+                ne.write_text("echo never\n")
+                ne.chmod(0o644)
+                kw[f"{v}_hook"] = f"sh {sp}; {ne}"
+            else:
+                kw[f"{v}_hook"] = f"sh {sp}"
         kind = case["kind"]
         skw = {}
         base.PowerSupply = G["FakePowerSupply"]
